@@ -11,6 +11,8 @@ static GLOBAL: worker::CapAlloc = worker::CapAlloc;
 mod c01;
 mod c02;
 mod c03;
+mod c04;
+mod tree;
 mod c09;
 mod c10;
 mod c11;
@@ -41,109 +43,25 @@ fn main() {
     }
     let tier = args.get(3).map(|s| s.as_str()).unwrap_or("quick").to_string();
     let seed = util::seed_from_env();
-    match (args[1].as_str(), args[2].as_str()) {
-        ("corr", "C16") => {
-            let mut c = util::Corr::new();
-            c16::corr(&tier, seed, &mut c);
-        }
-        ("corr", "C17") => {
-            let mut c = util::Corr::new();
-            c17::corr(&tier, seed, &mut c);
-        }
-        ("corr", "C01") => {
-            let mut c = util::Corr::new();
-            c01::corr(&tier, seed, &mut c);
-        }
-        ("search", "C01") => {
-            let mut s = util::Search::new();
-            c01::search(&tier, seed, &mut s);
-            s.finish();
-        }
-        ("corr", "C02") => {
-            let mut c = util::Corr::new();
-            c02::corr(&tier, seed, &mut c);
-        }
-        ("search", "C02") => {
-            let mut s = util::Search::new();
-            c02::search(&tier, seed, &mut s);
-            s.finish();
-        }
-        ("corr", "C03") => {
-            let mut c = util::Corr::new();
-            c03::corr(&tier, seed, &mut c);
-        }
-        ("search", "C03") => {
-            let mut s = util::Search::new();
-            c03::search(&tier, seed, &mut s);
-            s.finish();
-        }
-        ("corr", "C09") => {
-            let mut c = util::Corr::new();
-            c09::corr(&tier, seed, &mut c);
-        }
-        ("search", "C09") => {
-            let mut s = util::Search::new();
-            c09::search(&tier, seed, &mut s);
-            s.finish();
-        }
-        ("corr", "C10") => {
-            let mut c = util::Corr::new();
-            c10::corr(&tier, seed, &mut c);
-        }
-        ("search", "C10") => {
-            let mut s = util::Search::new();
-            c10::search(&tier, seed, &mut s);
-            s.finish();
-        }
-        ("corr", "C11") => {
-            let mut c = util::Corr::new();
-            c11::corr(&tier, seed, &mut c);
-        }
-        ("search", "C11") => {
-            let mut s = util::Search::new();
-            c11::search(&tier, seed, &mut s);
-            s.finish();
-        }
-        ("corr", "C13") => {
-            let mut c = util::Corr::new();
-            c13::corr(&tier, seed, &mut c);
-        }
-        ("search", "C13") => {
-            let mut s = util::Search::new();
-            c13::search(&tier, seed, &mut s);
-            s.finish();
-        }
-        ("corr", "C14") => {
-            let mut c = util::Corr::new();
-            c14::corr(&tier, seed, &mut c);
-        }
-        ("search", "C14") => {
-            let mut s = util::Search::new();
-            c14::search(&tier, seed, &mut s);
-            s.finish();
-        }
-        ("search", "C17") => {
-            let mut s = util::Search::new();
-            c17::search(&tier, seed, &mut s);
-            s.finish();
-        }
-        ("corr", "C15") => {
-            let mut c = util::Corr::new();
-            c15::corr(&tier, seed, &mut c);
-        }
-        ("search", "C15") => {
-            let mut s = util::Search::new();
-            c15::search(&tier, seed, &mut s);
-            s.finish();
-        }
-        ("search", "C16") => {
-            let mut s = util::Search::new();
-            c16::search(&tier, seed, &mut s);
-            s.finish();
-        }
-        _ => {
-            eprintln!("unknown command");
-            std::process::exit(2);
-        }
+    macro_rules! dispatch {
+        ($($id:literal => $m:ident),*) => {
+            match (args[1].as_str(), args[2].as_str()) {
+                $(("corr", $id) => {
+                    let mut c = util::Corr::new();
+                    $m::corr(&tier, seed, &mut c);
+                }
+                ("search", $id) => {
+                    let mut s = util::Search::new();
+                    $m::search(&tier, seed, &mut s);
+                    s.finish();
+                })*
+                _ => {
+                    eprintln!("unknown command");
+                    std::process::exit(2);
+                }
+            }
+        };
     }
+    dispatch!("C01" => c01, "C02" => c02, "C03" => c03, "C04" => c04, "C09" => c09, "C10" => c10, "C11" => c11, "C13" => c13,
+        "C14" => c14, "C15" => c15, "C16" => c16, "C17" => c17);
 }
